@@ -18,8 +18,8 @@ TECHNIQUE = ("runtime monitor: failure events injected at every event-loop itera
              "registered state callbacks, and 'connected' vs. an event-derived established-connection automaton at every sleep point")
 LEVEL_TEXT = (
     "Baseline session (connect, send, heartbeat at 70 s, two sends, heartbeat at 140 s, disconnect, 200 s of silence) for the real "
-    "UDPTunnel and TCPTunnel with auto-reconnect on and off, on the virtual loop against a scripted gateway. Failure events "
-    "{server DisconnectRequest (single / duplicated / with the next ConnectRequests unanswered), heartbeat unanswered x4 / x3, "
+    "UDPTunnel (also with route_back) and TCPTunnel with auto-reconnect on and off, on the virtual loop against a scripted gateway. Failure events "
+    "{server DisconnectRequest (single / duplicated / with the next ConnectRequests unanswered / with the next ConnectResponse 0.7 s late), heartbeat unanswered x4 / x3, "
     "ACKs dropped x2 / x1, TCP connection lost, user disconnect()} are injected at EVERY loop iteration index of the run and in "
     "the middle of every sleep; plus ordered pairs of failure kinds with the second one at every iteration within a window after the first (quick: "
     "second kind in {server disconnect, user disconnect}, window 2; thorough: all kinds, window 10 and two farther points). "
@@ -42,9 +42,9 @@ SHARDS = {"quick": 1, "thorough": 16}
 TIMEOUT = {"quick": 300, "thorough": 3000}
 
 EPS = 1e-9
-CONFIGS = (("udp", True), ("udp", False), ("tcp", True), ("tcp", False))
-FAULTS_UDP = ("SD", "SD2", "SDL", "SDRE", "SDCR", "HB4", "HB3", "AD2", "AD1", "OOO", "BO", "BOUD", "UD")
-FAULTS_TCP = ("SD", "SD2", "SDL", "SDRE", "SDCR", "HB4", "HB3", "TL", "TLCR", "BO", "BOUD", "UD")
+CONFIGS = (("udp", True, False), ("udp", False, False), ("udp", True, True), ("tcp", True, False), ("tcp", False, False))
+FAULTS_UDP = ("SD", "SD2", "SDL", "SDRE", "SDCR", "SDCD", "HB4", "HB3", "AD2", "AD1", "OOO", "BO", "BOUD", "UD")
+FAULTS_TCP = ("SD", "SD2", "SDL", "SDRE", "SDCR", "SDCD", "HB4", "HB3", "TL", "TLCR", "BO", "BOUD", "UD")
 
 _current = {"session": None}
 
@@ -74,9 +74,10 @@ def watch_reconnect():
 class Session:
     """One run of the session with its monitors."""
 
-    def __init__(self, transport, auto, faults):
+    def __init__(self, transport, auto, faults, route_back=False):
         self.transport = transport
         self.auto = auto
+        self.route_back = route_back
         self.faults = faults  # list of (kind, iteration, frac)
         self.loop = new_loop()
         self.inj = IterationInjector(self.loop)
@@ -91,6 +92,7 @@ class Session:
         self.hb_silent = 0
         self.ack_silent = 0
         self.connect_silent = 0
+        self.connect_delayed = 0
         self.blackout_until = 0.0
         self.last_loss = "nothing"
         self.disconnect_again_after_reconnect = False
@@ -156,6 +158,10 @@ class Session:
             self.connect_silent -= 1
             self.count("connect_requests_left_unanswered")
             return "silent"
+        if self.connect_delayed > 0:
+            self.connect_delayed -= 1
+            self.count("connect_responses_delayed")
+            return 0.7
         return "ok"
 
     # -- monitors -------------------------------------------------------------
@@ -259,13 +265,15 @@ class Session:
     def apply(self, kind):
         gw = self.gw
         self.injected.append((kind, self.inj.now, round(self.loop.time() - 1000, 4)))
-        if kind in ("SD", "SD2", "SDCR", "SDRE"):
+        if kind in ("SD", "SD2", "SDCR", "SDRE", "SDCD"):
             if not gw.is_open:
                 self.count("fault_not_applicable")
                 return
             ch, tr = gw.channel, gw.transport
             if kind == "SDCR":
                 self.connect_silent = 2
+            if kind == "SDCD":  # ... and the next ConnectResponse is 0.7 s late
+                self.connect_delayed = 1
             if kind == "SDRE":  # ... and the server disconnects again in the instant the reconnect has completed
                 self.disconnect_again_after_reconnect = True
             gw.note("fault", fault=kind)
@@ -342,7 +350,8 @@ class Session:
         cm.register_connection_state_changed_cb(self._state_cb2)
         if self.transport == "udp":
             self.tunnel = UDPTunnel(self.xknx, cemi_received_callback=lambda raw: None, gateway_ip="10.0.0.2",
-                                    gateway_port=3671, local_ip="10.0.0.1", auto_reconnect=self.auto, auto_reconnect_wait=3)
+                                    gateway_port=3671, local_ip="10.0.0.1", route_back=self.route_back,
+                                    auto_reconnect=self.auto, auto_reconnect_wait=3)
         else:
             self.tunnel = TCPTunnel(self.xknx, cemi_received_callback=lambda raw: None, gateway_ip="10.0.0.2",
                                     gateway_port=3671, auto_reconnect=self.auto, auto_reconnect_wait=3)
@@ -398,13 +407,13 @@ def history(s, limit=80):
     return out[-limit:]
 
 
-def judge_session(ctx, transport, auto, faults, sample=False):
+def judge_session(ctx, transport, auto, faults, sample=False, route_back=False):
     ctx.ev()
-    s = Session(transport, auto, faults).run()
+    s = Session(transport, auto, faults, route_back).run()
     applied = [f for f in s.injected]
     for k, v in s.counts.items():
         ctx.count(k, v)
-    ctx.count(f"runs_{transport}_{'auto' if auto else 'noauto'}")
+    ctx.count(f"runs_{transport}_{'auto' if auto else 'noauto'}{'_route_back' if route_back else ''}")
     ctx.count("reconnects_started", s.reconnects_started)
     ctx.count("state_callbacks", len(s.cb1))
     if s.driver_error:
@@ -415,7 +424,7 @@ def judge_session(ctx, transport, auto, faults, sample=False):
         ctx.count("tasks_alive_at_end_recorded", s.tasks_alive)
     if s.user_disconnect_returned:
         ctx.count("user_disconnect_returned")
-    ctx.distinct((transport, auto, tuple(k for k, _, _ in faults), tuple(s.cb1), s.reconnects_started, s.counts.get("handshakes_started", 0)))
+    ctx.distinct((transport, auto, route_back, tuple(k for k, _, _ in faults), tuple(s.cb1), s.reconnects_started, s.counts.get("handshakes_started", 0)))
     if sample:
         ctx.sample({"transport": transport, "auto_reconnect": auto, "faults": faults, "states": s.cb1,
                     "reconnects": s.reconnects_started, "iterations": s.iterations}, cap=6)
@@ -423,7 +432,8 @@ def judge_session(ctx, transport, auto, faults, sample=False):
         kinds = "+".join(k for k, _, _ in faults) or "none"
         ctx.violation(
             f"{transport}-{'auto' if auto else 'noauto'}-{mech}",
-            {"transport": transport, "auto_reconnect": auto, "faults": [list(f) for f in faults], "applied": applied,
+            {"transport": transport, "auto_reconnect": auto, "route_back": route_back, "faults": [list(f) for f in faults],
+             "applied": applied,
              "detail": detail, "states": s.cb1, "history": history(s)},
             f"{transport} tunnel auto_reconnect={auto}, faults {faults} (kind, loop iteration, fraction of sleep): {mech} {detail}; "
             f"states {s.cb1[-8:]} [{kinds}]",
@@ -435,17 +445,18 @@ def run(ctx):
     ctx.rule = ("baseline session x {udp,tcp} x auto_reconnect {on,off}; every failure kind at every loop iteration k of the run and "
                 "at the middle of every sleep (singles); pairs: (any kind, then SD or UD at k1..k1+2) in quick, all ordered pairs with the second at k1..k1+10, k1+12, k1+30 in thorough; "
                 "distinct = (transport, auto, fault kinds, state-callback sequence, reconnects, handshakes)")
-    ctx.require("fault_SD", "fault_SD2", "fault_SDL", "fault_SDRE", "server_disconnect_right_after_reconnect", "fault_SDCR", "fault_OOO", "fault_BO", "fault_BOUD", "frames_swallowed_by_blackout", "fault_HB4", "fault_HB3", "fault_AD2", "fault_AD1", "fault_TL", "fault_TLCR",
+    ctx.require("fault_SD", "fault_SD2", "fault_SDL", "fault_SDRE", "server_disconnect_right_after_reconnect", "fault_SDCR", "fault_SDCD", "connect_responses_delayed",
+                "runs_udp_auto_route_back", "fault_OOO", "fault_BO", "fault_BOUD", "frames_swallowed_by_blackout", "fault_HB4", "fault_HB3", "fault_AD2", "fault_AD1", "fault_TL", "fault_TLCR",
                 "fault_UD", "reconnects_started", "handshakes_completed", "state_callbacks", "sleep_points_checked",
                 "user_disconnect_returned", "heartbeats_left_unanswered", "acks_dropped", "connect_requests_left_unanswered")
     window = ctx.scale(2, 10)
     i = 0
     with watch_reconnect():
-        for transport, auto in CONFIGS:
-            base = judge_session(ctx, transport, auto, [], sample=True)
+        for transport, auto, rb in CONFIGS:
+            base = judge_session(ctx, transport, auto, [], sample=True, route_back=rb)
             n_iter = base.iterations
             sleeping = set(base.sleeps)
-            ctx.extra[f"baseline_iterations_{transport}_{'auto' if auto else 'noauto'}"] = n_iter
+            ctx.extra[f"baseline_iterations_{transport}_{'auto' if auto else 'noauto'}{'_rb' if rb else ''}"] = n_iter
             kinds = FAULTS_UDP if transport == "udp" else FAULTS_TCP
             k0 = base.k_connected  # failures are injected once the user's connect() has returned
             points = [(k, 0.0) for k in range(k0, n_iter)] + [(k, 0.5) for k in sorted(sleeping) if k >= k0]
@@ -454,7 +465,8 @@ def run(ctx):
                     i += 1
                     if not ctx.mine(i):
                         continue
-                    judge_session(ctx, transport, auto, [(kind, k, frac)], sample=(kind in ("SDCR", "HB4") and k == 20))
+                    judge_session(ctx, transport, auto, [(kind, k, frac)], sample=(kind in ("SDCR", "HB4") and k == 20),
+                                  route_back=rb)
             if True:
                 seconds = kinds if window > 2 else ("SD", "UD")
                 far = [k1_off for k1_off in ((12, 30) if window > 2 else ())]
@@ -465,7 +477,7 @@ def run(ctx):
                                 i += 1
                                 if not ctx.mine(i):
                                     continue
-                                judge_session(ctx, transport, auto, [(kind1, k1, 0.0), (kind2, k2, 0.0)])
+                                judge_session(ctx, transport, auto, [(kind1, k1, 0.0), (kind2, k2, 0.0)], route_back=rb)
     ctx.exhaustive = True
     ctx.extra["bound"] = {"single_faults": "every iteration + middle of every sleep", "pair_window_iterations": window}
 
@@ -473,6 +485,7 @@ def run(ctx):
 def replay(ctx, witness):
     ctx.rule = "replay of one recorded fault schedule"
     with watch_reconnect():
-        judge_session(ctx, witness["transport"], witness["auto_reconnect"], [tuple(f) for f in witness["faults"]])
+        judge_session(ctx, witness["transport"], witness["auto_reconnect"], [tuple(f) for f in witness["faults"]],
+                      route_back=bool(witness.get("route_back")))
     ctx.distinct("replay")
     ctx.distinct("replay2")
